@@ -178,45 +178,69 @@ def oracle_table(contribs):
 
 
 # ------------------------------------------------------------------ P: rendering and the attribution oracle
-def render(lines):
-    """logical lines -> (text, nodes) ; nodes = list of lists of physical line numbers in walk order."""
+def lang_of(path):
+    """language class of a file name as codebasin.language.FileLanguage assigns it (only the classes the
+    generator uses: fortran-free, asm, c/c++ - the last two share one lexer)."""
+    ext = os.path.splitext(path[-1])[1]
+    if ext in (".f90", ".F90"):
+        return "fortran"
+    if ext in (".s", ".S", ".asm"):
+        return "asm"
+    return "c"
+
+
+def line_text(i, l):
+    k = l[0]
+    if k == "C":
+        return [f"int v{i}_{j} = {l[2] if len(l) > 2 else 0};" for j in range(l[1])]
+    if k == "B":
+        return [f"! note {i}_{j}" for j in range(l[1])]
+    return [{"I": f"#ifdef {l[1] if len(l) > 1 else ''}", "N": f"#ifndef {l[1] if len(l) > 1 else ''}",
+             "L": f"#elif defined({l[1] if len(l) > 1 else ''})", "E": "#else", "X": "#endif",
+             "H": f'#include "{l[1] if len(l) > 1 else ""}"'}[k]]
+
+
+def render(lines, lang="c"):
+    """logical lines -> (text, nodes); nodes = the physical line numbers of every CodeNode in walk order, as the
+    lexer of [lang] sees the text: '! ...' lines are code for the C lexer and comments for the Fortran one; the
+    assembler lexer drops '#' lines and makes one node of everything else."""
     out, nodes, run = [], [], []
     for i, l in enumerate(lines):
         k = l[0]
-        if k == "C":
-            for j in range(l[1]):
-                out.append(f"int v{i}_{j} = {l[2] if len(l) > 2 else 0};")
-                run.append(len(out))
+        txt = line_text(i, l)
+        first = len(out) + 1
+        out += txt
+        nums = list(range(first, len(out) + 1))
+        if lang == "asm":
+            if k in ("C", "B"):
+                run += nums
             continue
+        if k == "C" or (k == "B" and lang == "c"):
+            run += nums
+            continue
+        if k == "B":
+            continue                      # a Fortran comment: no SLOC, does not end a run of code
         if run:
             nodes.append(run)
             run = []
-        if k == "I":
-            out.append(f"#ifdef {l[1]}")
-        elif k == "N":
-            out.append(f"#ifndef {l[1]}")
-        elif k == "L":
-            out.append(f"#elif defined({l[1]})")
-        elif k == "E":
-            out.append("#else")
-        elif k == "X":
-            out.append("#endif")
-        elif k == "H":
-            out.append(f'#include "{l[1]}"')
-        nodes.append([len(out)])
+        nodes.append(nums)
     if run:
         nodes.append(run)
     return "\n".join(out) + "\n", nodes
 
 
-def reached(lines, defines, includes=None):
+def reached(lines, defines, includes=None, lang="c"):
     """indices (in node order) of the nodes the visitor associates for one compile command;
     when [includes] is a list, the target file indices of the reached #include lines are appended to it."""
+    if lang == "asm":
+        return [0] if any(l[0] in ("C", "B") for l in lines) else []
     hit, stack, node, run_open = [], [], 0, False
     live = True
     for l in lines:
         k = l[0]
-        if k == "C":
+        if k == "B" and lang == "fortran":
+            continue
+        if k in ("C", "B"):
             if not run_open:
                 run_open = True
                 if live:
@@ -258,14 +282,27 @@ def reached(lines, defines, includes=None):
 
 def reach_all(files, idx, defines, depth=0):
     """(path, node) pairs associated by one compile command of files[idx]: its own nodes and,
-    through every reached #include, the nodes of the included files (textual order, repeats kept)."""
+    through every reached #include, the nodes of the included files (textual order, repeats kept).
+    The lexer is chosen by the REAL file's name."""
     p, lines = files[idx]
     inc = []
-    out = [[p, n] for n in reached(lines, defines, inc)]
+    out = [[p, n] for n in reached(lines, defines, inc, lang_of(p))]
     if depth < 8:
         for t in inc:
             out += reach_all(files, t, defines, depth + 1)
     return out
+
+
+def nodes_of_file(f):
+    return render(f[1], lang_of(f[0]))[1]
+
+
+def comp_target(case, c):
+    """a compile-command entry: a file index, or -(k+1) = through link k; -> (index of the real file, name used)."""
+    if c >= 0:
+        return c, case["files"][c][0]
+    lp, t = case.get("links", [])[-c - 1]
+    return t, lp
 
 
 def pstr(p):
@@ -329,13 +366,14 @@ class C14(Check):
             "insertion order with repeated keys, counts from x.xx5-prone families (totals 8, 24, 40, 200), zero counts, up to 1e12; "
             "each under >= 3 insertion orders x 5 hash seeds in fresh interpreters; exhaustive small block; an edge stream (empty / "
             "all-zero tables, repeated names, punctuation, blanks, non-ASCII). P: code bases of 2-7 files in nested directories with "
-            "#ifdef/#ifndef/#elif/#else structure, duplicate files, headers reached through (nested) #include, 1-4 platforms with "
-            "-D sets, each analysed by codebasin, cbi-tree and cbi-cov in a fresh interpreter under 4 schedules. F: the same code "
+            "#ifdef/#ifndef/#elif/#else structure and '!' lines, file names of three lexer classes (c/c++, fortran-free, asm), duplicate "
+            "files, headers reached through (nested) #include, symbolic links whose name is of ANOTHER lexer class than their target "
+            "(some named by compile commands), 1-4 platforms with -D sets, each analysed by codebasin, cbi-tree and cbi-cov in a fresh interpreter under 4 schedules. F: the same code "
             "bases through finder.find + get_setmap in process, 4 runs with permuted configuration and shuffled scandir, observing "
             "the dict with its insertion order and every node's platform set. Non-trivial: T - at least two platforms and two rows "
             "of equal size; P - additionally files in more than one directory; F - two platforms, three rows, two directories")
     assumptions = ["which nodes a compile command reaches is C01/C04's subject: the model takes it as input (computed by an independent stack-machine oracle on #ifdef/#ifndef/#elif defined/#else/#endif)",
-                   "no member of the code base is a symbolic link; counts stay below 2^53",
+                   "every symbolic link among the members points to a regular member of the code base (trees and association maps are keyed by the real path, the lexer is chosen by the real file name); counts stay below 2^53",
                    "runtime schedules (hash seeds, scandir order, platform-table order) are SAMPLED; Coq proves invariance of the model under every permutation",
                    "tabulate, json.dump and format(x,'.2f') are deterministic functions of their arguments (format is checked against the model's decimal rounding on every float)"]
 
@@ -392,7 +430,11 @@ class C14(Check):
         for _ in range(r.randint(1, 3)):
             x = r.random()
             if x < 0.5 or depth >= 2:
+                if r.random() < 0.35:
+                    out.append(["B", r.randint(1, 2)])      # '! ...' : code for the C lexer, a comment in Fortran
                 out.append(["C", r.randint(1, 3), r.randint(0, 1)])
+                if r.random() < 0.2:
+                    out.append(["B", 1])
             else:
                 m = r.choice(macros)
                 out.append([r.choice(["I", "I", "N"]), m])
@@ -414,7 +456,7 @@ class C14(Check):
         files, used = [], set()
         for i in range(nf):
             d = r.choice(dirs)
-            ext = r.choice([".c", ".c", ".cpp", ".h", ".h"])
+            ext = r.choice([".c", ".c", ".cpp", ".h", ".h", ".F90", ".f90", ".inc", ".S"])
             name = r.choice(["m", "n", "k", "Z", "a", "b"]) + str(r.randint(0, 2)) + ext
             p = d + [name]
             if pstr(p) in used:
@@ -445,6 +487,22 @@ class C14(Check):
             defs = [m for m in macros if r.random() < 0.5]
             comp = [i for i in srcs if r.random() < 0.7] or [r.choice(srcs)]
             plats.append([name, defs, comp])
+        # symbolic links whose name falls into ANOTHER language class than the file they point to, some of them
+        # named by compile commands
+        links = []
+        other = {"c": [".F90", ".f90", ".S"], "fortran": [".inc", ".c", ".cpp", ".S"], "asm": [".c", ".F90"]}
+        if r.random() < 0.6:
+            for _ in range(r.randint(1, 2)):
+                t = r.randrange(len(files))
+                lp = r.choice(dirs) + [r.choice(["m", "lnk", "Z", "b"]) + str(r.randint(0, 2)) + r.choice(other[lang_of(files[t][0])])]
+                if pstr(lp) in used:
+                    continue
+                used.add(pstr(lp))
+                links.append([lp, t])
+            for pl in plats:
+                for k in range(len(links)):
+                    if r.random() < 0.5:
+                        pl[2].insert(r.randint(0, len(pl[2])), -(k + 1))
         sched = []
         for k in range(4):
             sched.append([self.HASHSEEDS[k] if k < 4 else "random", r.randint(0, 10 ** 6), r.randint(0, 10 ** 6), r.randint(0, 10 ** 6)])
@@ -452,10 +510,10 @@ class C14(Check):
         nev = sum(len(p[2]) for p in plats)
         perms = []
         for _ in range(2):
-            a, b, c = list(range(len(files))), list(range(nev)), list(range(len(plats[0][2])))
+            a, b, c = list(range(len(files) + len(links))), list(range(nev)), list(range(len(plats[0][2])))
             r.shuffle(a), r.shuffle(b), r.shuffle(c)
             perms.append([a, b, c])
-        return {"k": "P", "files": files, "plats": plats, "sched": sched, "perms": perms}
+        return {"k": "P", "files": files, "links": links, "plats": plats, "sched": sched, "perms": perms}
 
     def generate(self):
         out = []
@@ -499,28 +557,27 @@ class C14(Check):
             nev = sum(len(p[2]) for p in c["plats"])
             perms = []
             for _ in range(2):
-                a, b = list(range(len(c["files"]))), list(range(nev))
+                a, b = list(range(len(c["files"]) + len(c["links"]))), list(range(nev))
                 self.rng.shuffle(a), self.rng.shuffle(b)
                 perms.append([a, b])
-            out.append({"k": "F", "files": c["files"], "plats": c["plats"],
+            out.append({"k": "F", "files": c["files"], "links": c["links"], "plats": c["plats"],
                         "runs": [[self.rng.randint(0, 10 ** 6), self.rng.randint(0, 10 ** 6)] for _ in range(3)], "perms": perms})
         return out
 
     # ---------------------------------------------------------------- encoding for the model
     def p_parts(self, case):
-        """files / events / coverage events as the model wants them."""
-        files = []
-        for p, lines in case["files"]:
-            _, nodes = render(lines)
-            files.append([p, nodes])
+        """members (regular files, then links: name, real path, nodes of the real file) / events / coverage events."""
+        files = [[f[0], f[0], nodes_of_file(f)] for f in case["files"]]
+        for lp, t in case.get("links", []):
+            files.append([lp, case["files"][t][0], nodes_of_file(case["files"][t])])
         events = []
         for name, defs, comp in case["plats"]:
-            for i in comp:
-                events.append([name, reach_all(case["files"], i, defs)])
+            for c in comp:
+                events.append([name, reach_all(case["files"], comp_target(case, c)[0], defs)])
         name, defs, comp = case["plats"][0]
         cev = []
-        for i in comp:
-            cev.append(["cli", reach_all(case["files"], i, defs)])
+        for c in comp:
+            cev.append(["cli", reach_all(case["files"], comp_target(case, c)[0], defs)])
         return files, events, cev
 
     def encode(self, case):
@@ -591,20 +648,28 @@ class C14(Check):
         if root.exists():
             shutil.rmtree(root)
         root.mkdir(parents=True)
-        order = list(range(len(case["files"])))
+        links = case.get("links", [])
+        order = list(range(len(case["files"]) + len(links)))
         random.Random(create_seed).shuffle(order)
         for i in order:
-            p, lines = case["files"][i]
-            fp = root.joinpath(*p)
-            fp.parent.mkdir(parents=True, exist_ok=True)
-            fp.write_text(render(lines)[0])
+            if i < len(case["files"]):
+                p, lines = case["files"][i]
+                fp = root.joinpath(*p)
+                fp.parent.mkdir(parents=True, exist_ok=True)
+                fp.write_text(render(lines)[0])
+            else:
+                lp, t = links[i - len(case["files"])]
+                fp = root.joinpath(*lp)
+                fp.parent.mkdir(parents=True, exist_ok=True)
+                # a relative link; it may be created before its target exists
+                os.symlink(os.path.relpath(pstr(case["files"][t][0]), os.path.dirname(pstr(lp)) or "."), fp)
         plats = list(case["plats"])
         random.Random(plat_seed).shuffle(plats)
         toml = []
         for name, defs, comp in plats:
             db = []
-            for i in comp:
-                rel = pstr(case["files"][i][0])
+            for c in comp:
+                rel = pstr(comp_target(case, c)[1])
                 db.append({"file": rel, "directory": str(root),
                            "command": "cc " + " ".join(f"-D{d}" for d in defs) + f" -c {rel}"})
             (root / f"db_{name}.json").write_text(json.dumps(db))
@@ -648,7 +713,7 @@ class C14(Check):
                 stack = []
             else:
                 depth = len(m2.group(1)) // 2 + 1
-                nm = m2.group(4).rstrip("/")
+                nm = m2.group(4).split(" -> ")[0].rstrip("/")
                 stack = stack[:depth - 1] + [nm]
                 path = list(stack)
             rows.append([path, [letters, int(sloc) if sloc.isdigit() else sloc, hundredths(cc), hundredths(ac)]])
@@ -742,7 +807,7 @@ class C14(Check):
                 comp = list(comp)
                 if k:
                     prng.shuffle(comp)
-                cfg[name] = [{"file": str(root.joinpath(*case["files"][i][0])), "defines": list(defs),
+                cfg[name] = [{"file": str(root.joinpath(*comp_target(case, i)[1])), "defines": list(defs),
                               "include_paths": [], "include_files": []} for i in comp]
             with shuffled_fs(sseed):
                 cb = codebasin.CodeBase(str(root))
@@ -837,12 +902,13 @@ class C14(Check):
 
     # ---------------------------------------------------------------- S
     def contribs_of(self, case):
-        """the table of a P case from the definitions: every physical code line with the set of platforms using it."""
-        nodes_of = {pstr(p): render(lines)[1] for p, lines in case["files"]}
+        """the table of a P case from the definitions: every physical code line (as the lexer of the REAL file
+        name counts it) with the set of platforms using it; links are not counted a second time."""
+        nodes_of = {pstr(f[0]): nodes_of_file(f) for f in case["files"]}
         sets = {f: [set() for _ in ns] for f, ns in nodes_of.items()}
         for name, defs, comp in case["plats"]:
-            for fi in comp:
-                for p, n in reach_all(case["files"], fi, defs):
+            for c in comp:
+                for p, n in reach_all(case["files"], comp_target(case, c)[0], defs):
                     sets[pstr(p)][n].add(name)
         out, per_file = [], {}
         for p, _ in case["files"]:
@@ -862,24 +928,27 @@ class C14(Check):
             contribs, per_file = self.contribs_of(case)
             o = oracle_table(contribs)
             o["per_file"] = per_file
-            o["line_sets"] = sorted([pstr(p), ln, rows[i][0]] for p, lines in case["files"]
-                                    for rows in [per_file[pstr(p)]] for i, n in enumerate(render(lines)[1]) for ln in n)
+            links = case.get("links", [])
+            o["links"] = {pstr(lp): pstr(case["files"][t][0]) for lp, t in links}
+            members = [(f[0], f) for f in case["files"]] + [(lp, case["files"][t]) for lp, t in links]
+            o["line_sets"] = sorted([pstr(name), ln, rows[i][0]] for name, f in members
+                                    for rows in [per_file[pstr(f[0])]] for i, n in enumerate(nodes_of_file(f)) for ln in n)
             by = {}
             for p, lines in case["files"]:
                 by.setdefault(render(lines)[0], []).append(pstr(p))
             o["dups"] = sorted(sorted(g) for g in by.values() if len(g) > 1)
             name, defs, comp = case["plats"][0]
             hits = {}
-            for fi in comp:
-                for p, n in reach_all(case["files"], fi, defs):
+            for c in comp:
+                for p, n in reach_all(case["files"], comp_target(case, c)[0], defs):
                     hits.setdefault(pstr(p), set()).add(n)
             cov = []
-            for p, lines in case["files"]:
-                text, nodes = render(lines)
-                hit = hits.get(pstr(p), set())
+            for mname, f in members:
+                text, nodes = render(f[1], lang_of(f[0]))
+                hit = hits.get(pstr(f[0]), set())
                 used = [ln for i, n in enumerate(nodes) if i in hit for ln in n]
                 unused = [ln for i, n in enumerate(nodes) if i not in hit for ln in n]
-                cov.append([pstr(p), hashlib.sha512(text.encode()).hexdigest(), used, unused])
+                cov.append([pstr(mname), hashlib.sha512(text.encode()).hexdigest(), used, unused])
             o["covrecs"] = sorted(cov)
         self._ocache[k] = o
         return o
@@ -957,6 +1026,11 @@ class C14(Check):
                 key = "/".join(parts[:d]) if d < len(parts) else f
                 want.setdefault(key, []).extend(frows)
         want[""] = [r for frows in o["per_file"].values() for r in frows]
+        for lname, target in o["links"].items():
+            parts = lname.split("/")
+            for d in range(1, len(parts)):
+                want.setdefault("/".join(parts[:d]), [])
+            want[lname] = list(o["per_file"][target])
         got = {pstr(p): meta for p, meta in ia["tree"]}
         if sorted(got) != sorted(want):
             tbad.append(["tree paths", sorted(got), sorted(want)])
@@ -1012,97 +1086,63 @@ class C14(Check):
         return self.shrink_P(case, still_fails)
 
     def shrink_F(self, case, still_fails, budget=60):
-        def fix(files, plats):
+        def fix(files, plats, links):
             nev = sum(len(p[2]) for p in plats)
-            return {"k": "F", "files": files, "plats": plats, "runs": case["runs"],
-                    "perms": [[list(reversed(range(len(files)))), list(reversed(range(nev)))]]}
-        cur = fix(case["files"], case["plats"])
-        if not still_fails(cur):
+            return {"k": "F", "files": files, "links": [list(l) for l in links], "plats": plats, "runs": case["runs"],
+                    "perms": [[list(reversed(range(len(files) + len(links)))), list(reversed(range(nev)))]]}
+        if not still_fails(fix(case["files"], case["plats"], case.get("links", []))):
             return case
+        return self.shrink_parts(case, fix, still_fails, budget)
+
+    def shrink_parts(self, case, make, still_fails, budget):
+        """drop platforms, links and files while the case still fails."""
+        cur = make(case["files"], case["plats"], case.get("links", []))
         changed = True
         while changed and budget > 0:
             changed = False
             for i in range(len(cur["plats"]) - 1, -1, -1):
                 if len(cur["plats"]) < 2 or budget <= 0:
                     break
-                cand = fix(cur["files"], cur["plats"][:i] + cur["plats"][i + 1:])
+                cand = make(cur["files"], cur["plats"][:i] + cur["plats"][i + 1:], cur["links"])
+                budget -= 1
+                if still_fails(cand):
+                    cur, changed = cand, True
+            for k in range(len(cur["links"]) - 1, -1, -1):
+                if budget <= 0:
+                    break
+                np_, nl = self.p_drop_link(cur["plats"], cur["links"], k)
+                if not np_:
+                    continue
+                cand = make(cur["files"], np_, nl)
                 budget -= 1
                 if still_fails(cand):
                     cur, changed = cand, True
             for j in range(len(cur["files"]) - 1, -1, -1):
                 if len(cur["files"]) < 2 or budget <= 0:
                     break
-                nf, np_ = self.p_drop_file(cur["files"], cur["plats"], j)
+                nf, np_, nl = self.p_drop_file(cur["files"], cur["plats"], j, cur["links"])
                 if not np_:
                     continue
-                cand = fix(nf, np_)
+                cand = make(nf, np_, nl)
                 budget -= 1
                 if still_fails(cand):
                     cur, changed = cand, True
         return cur
 
-    @staticmethod
-    def p_fix(files, plats, sched):
-        """a well-formed P case from edited parts (model-side permutations = reversals)."""
-        nev = sum(len(p[2]) for p in plats)
-        rev = lambda n: list(reversed(range(n)))  # noqa: E731
-        return {"k": "P", "files": files, "plats": plats, "sched": sched,
-                "perms": [[rev(len(files)), rev(nev), rev(len(plats[0][2]))]]}
-
-    @staticmethod
-    def p_drop_file(files, plats, j):
-        nf = []
-        for i, (p, lines) in enumerate(files):
-            if i == j:
-                continue
-            ls = []
-            for l in lines:
-                if l[0] == "H":
-                    if l[2] == j:
-                        continue
-                    l = ["H", l[1], l[2] - (1 if l[2] > j else 0)]
-                ls.append(l)
-            nf.append([p, ls])
-        np_ = []
-        for name, defs, comp in plats:
-            c = [i - (1 if i > j else 0) for i in comp if i != j]
-            if c:
-                np_.append([name, defs, c])
-        return nf, np_
-
     def shrink_P(self, case, still_fails, budget=28):
-        cur = self.p_fix(case["files"], case["plats"], case["sched"])
+        sched = case["sched"]
+        cur = self.p_fix(case["files"], case["plats"], sched, case.get("links", []))
         if not still_fails(cur):
             return case
         budget -= 1
         # one perturbed schedule next to the baseline is enough if it still fails
-        for k in range(1, len(cur["sched"])):
-            cand = self.p_fix(cur["files"], cur["plats"], [cur["sched"][0], cur["sched"][k]])
+        for k in range(1, len(sched)):
+            cand = self.p_fix(cur["files"], cur["plats"], [sched[0], sched[k]], cur["links"])
             budget -= 1
             if still_fails(cand):
-                cur = cand
+                cur, sched = cand, [sched[0], sched[k]]
                 break
-        changed = True
-        while changed and budget > 0:
-            changed = False
-            for i in range(len(cur["plats"]) - 1, -1, -1):
-                if len(cur["plats"]) < 2 or budget <= 0:
-                    break
-                cand = self.p_fix(cur["files"], cur["plats"][:i] + cur["plats"][i + 1:], cur["sched"])
-                budget -= 1
-                if still_fails(cand):
-                    cur, changed = cand, True
-            for j in range(len(cur["files"]) - 1, -1, -1):
-                if len(cur["files"]) < 2 or budget <= 0:
-                    break
-                nf, np_ = self.p_drop_file(cur["files"], cur["plats"], j)
-                if not np_:
-                    continue
-                cand = self.p_fix(nf, np_, cur["sched"])
-                budget -= 1
-                if still_fails(cand):
-                    cur, changed = cand, True
-        return cur
+        return self.shrink_parts(cur, lambda f, p, l: self.p_fix(f, p, sched, l), still_fails, budget)
 
     def self_tests(self):
         """The runner (three tools through runpy in one fresh interpreter) must print what the real
@@ -1168,11 +1208,15 @@ class _C14(C14):
                 h[str(len(o["plats"]))] = h.get(str(len(o["plats"])), 0) + 1
             elif c["k"] == "F":
                 self.stats["f_runs"] = self.stats.get("f_runs", 0) + 1 + len(c["runs"])
+                self.stats["f_cases_with_cross_language_links"] = self.stats.get("f_cases_with_cross_language_links", 0) + int(bool(c.get("links")))
             else:
                 h = self.stats["p_files_hist"]
                 h[str(len(c["files"]))] = h.get(str(len(c["files"])), 0) + 1
                 h = self.stats["p_platforms_hist"]
                 h[str(len(c["plats"]))] = h.get(str(len(c["plats"])), 0) + 1
+                self.stats["p_cases_with_cross_language_links"] = self.stats.get("p_cases_with_cross_language_links", 0) + int(bool(c.get("links")))
+                self.stats["p_cases_with_command_through_link"] = self.stats.get("p_cases_with_command_through_link", 0) + \
+                    int(any(x < 0 for pl in c["plats"] for x in pl[2]))
                 inc = sum(1 for _, ls in c["files"] for l in ls if l[0] == "H")
                 per_file = self.oracle(c)["per_file"]
                 used_hdr = any(f.endswith(".h") and any(s for s, _ in rows) for f, rows in per_file.items())
